@@ -468,8 +468,9 @@ def check(run, db, tier):
     run.rule('C01.dispatch', "both method strings reach their engine with identical arguments")
     run.rule('C01.route', 'chirp-Z == matrix DFT cell by cell on small concrete arrays of symbolic samples (forward and inverse, real and complex, symbolic Q, per-axis Q; '
              'equal in modulus under a shift): the identity of Bluestein as a polynomial identity')
-    from .c01values import route_value_rules
+    from .c01values import route_value_rules, fft_route_value_rules
     run.group(route_value_rules, run, db)
+    run.group(fft_route_value_rules, run, db)
     run.group(cache_rules, run, db)
     run.group(fresh_rules, run, db)
     run.group(mdft_rules, run, db)
